@@ -11,6 +11,7 @@ variable [Rules]
 
 /-! ### small membership facts -/
 
+omit [Rules] in
 theorem mem_namedOf {l : List Sym} {n : Name} : n ∈ namedOf l ↔ Sym.named n ∈ l := by
   unfold namedOf
   rw [List.mem_filterMap]
@@ -22,6 +23,7 @@ theorem mem_namedOf {l : List Sym} {n : Name} : n ∈ namedOf l ↔ Sym.named n 
   · intro h
     exact ⟨_, h, rfl⟩
 
+omit [Rules] in
 theorem mem_directRefs {b : List BodyItem} {n : Name} :
     n ∈ directRefs b ↔ BodyItem.ref (.fn n) ∈ b ∨ BodyItem.ref (.obj n) ∈ b := by
   unfold directRefs
@@ -40,6 +42,7 @@ theorem mem_directRefs {b : List BodyItem} {n : Name} :
     · exact ⟨_, h, rfl⟩
     · exact ⟨_, h, rfl⟩
 
+omit [Rules] in
 theorem named_mem_initLabels : ∀ {items : List InitItem} {k : Nat} {n : Name},
     Sym.named n ∈ initLabels k items ↔ n ∈ initFnRefs items ∨ n ∈ initObjRefs items
   | [], _, _ => by simp [initLabels, initFnRefs, initObjRefs]
@@ -71,6 +74,7 @@ theorem named_mem_initLabels : ∀ {items : List InitItem} {k : Nat} {n : Name},
     have ih := named_mem_initLabels (items := rest) (k := k + 1) (n := n)
     simp only [initLabels, List.mem_cons, reduceCtorEq, false_or, ih, initFnRefs, initObjRefs, List.filterMap_cons]
 
+omit [Rules] in
 theorem initRefs_any {items : List InitItem} {n : Name} (h : n ∈ initFnRefs items ∨ n ∈ initObjRefs items) :
     items.any (fun j => match j with | .ref _ => true | _ => false) = true := by
   rw [List.any_eq_true]
@@ -89,6 +93,7 @@ theorem initRefs_any {items : List InitItem} {n : Name} (h : n ∈ initFnRefs it
 def emittedP (gs : List Obj) (o : Obj) : Bool :=
   if o.isFunction then o.isDefinition && o.isLive else o.isDefinition && ownerLive gs o
 
+omit [Rules] in
 theorem mem_emittedUses {gs : List Obj} {s : Sym} :
     s ∈ emittedUses gs ↔ ∃ o, o ∈ gs ∧ emittedP gs o = true ∧ s ∈ o.uses := by
   unfold emittedUses
@@ -100,6 +105,7 @@ theorem mem_emittedUses {gs : List Obj} {s : Sym} :
   · rintro ⟨o, ho, hp, hs⟩
     exact ⟨o, List.mem_filter.mpr ⟨ho, hp⟩, hs⟩
 
+omit [Rules] in
 theorem mem_usedNames {ds : List Decl} {n : Name} :
     n ∈ usedNames ds ↔ n ∈ fileFnRefs ds ∨ n ∈ fileObjRefs ds ∨
       ∃ f, f ∈ fnNames ds ∧ fnEmitted ds f = true ∧
@@ -116,6 +122,7 @@ theorem mem_usedNames {ds : List Decl} {n : Name} :
     · exact Or.inl (Or.inr h)
     · exact Or.inr ⟨f, ⟨hf, he⟩, h⟩
 
+omit [Rules] in
 theorem mem_deadStaticLocalRefs {ds : List Decl} {n : Name} :
     n ∈ deadStaticLocalRefs ds ↔ ∃ f, f ∈ fnNames ds ∧ fnDefined (fnDecls ds f) = true ∧ fnEmitted ds f = false ∧
       ∃ tls ty items, BodyItem.staticLocal tls ty (some items) ∈ fnBody (fnDecls ds f) ∧
@@ -337,7 +344,7 @@ theorem data_def_objName {o : Obj} {x : Name} (ho : o ∈ gs) (hf : o.isFunction
 def specDefined (ds : List Decl) (n : Name) : Prop :=
   (n ∈ objNames ds ∧ objDefined (objDecls ds n) = true) ∨ (n ∈ fnNames ds ∧ fnEmitted ds n = true)
 
-omit u p in
+omit [Rules] u p in
 theorem definedHere_iff (n : Name) : definedHere ds n = true ↔ specDefined ds n := by
   simp [definedHere, specDefined]
 
@@ -425,9 +432,11 @@ end
 
 def undefEntry (s : Sym) : SymEntry := ⟨s, .global, .undef, none, 0⟩
 
+omit [Rules] in
 theorem asmView_sym (e : SymEntry) : (asmView e).sym = e.sym := by
   unfold asmView; split <;> rfl
 
+omit [Rules] in
 theorem emit_defined {fc : Bool} {gs : List Obj} {s : Sym} :
     (emit fc gs).any (fun e => e.sym == s) = true ↔
       ∃ o, o ∈ gs ∧ o.sym = s ∧ ((o.isFunction = false ∧ o.isDefinition = true ∧ ownerLive gs o = true) ∨
@@ -468,12 +477,14 @@ theorem emit_defined {fc : Bool} {gs : List Obj} {s : Sym} :
       refine ⟨⟨o.sym, bindingOf o, .text, none, 0⟩, List.mem_filterMap.mpr ⟨o, ho, ?_⟩, by simp [hs]⟩
       simp [emitTextFn, hf, hd, hl]
 
+omit [Rules] in
 theorem mem_undefs {fc : Bool} {gs : List Obj} {s : Sym} :
     s ∈ undefs fc gs ↔ s ∈ emittedUses gs ∧ (emit fc gs).any (fun e => e.sym == s) = false := by
   unfold undefs
   rw [mem_dedup, List.mem_filter]
   simp
 
+omit [Rules] in
 theorem mem_objectSymbols {fc : Bool} {gs : List Obj} {e : SymEntry} :
     e ∈ objectSymbols fc gs ↔ (∃ n, e.sym = .named n) ∧
       ((∃ o, o ∈ gs ∧ ownerLive gs o = true ∧ (emitDataVar fc o).map asmView = some e) ∨ (∃ o, o ∈ gs ∧ emitTextFn o = some e) ∨
@@ -532,6 +543,7 @@ theorem mem_objectSymbols {fc : Bool} {gs : List Obj} {e : SymEntry} :
             rfl
     · exact Or.inr ⟨s, hs, rfl⟩
 
+omit [Rules] in
 theorem mem_symbols {fc : Bool} {ds : List Decl} {e : SymEntry} :
     e ∈ symbols fc ds ↔ (∃ f, f ∈ fnNames ds ∧ fnSymbol ds f = some e) ∨ (∃ x, x ∈ objNames ds ∧ objSymbol fc ds x = some e) ∨
       (∃ x, x ∈ blockExternNames ds ∧ x ∉ objNames ds ∧ x ∈ usedNames ds ∧ e = undefEntry (.named x)) := by
@@ -697,8 +709,6 @@ theorem symbols_iff {ds : List Decl} (u : UnitOK ds) {st : PState} {gs1 gs : Lis
 
 /-! ### from the decidable hypotheses of the theorem -/
 
-omit [Rules] in
-theorem mem_blockExterns' {ds : List Decl} {y : Name} {ty : ObjTy} (h : (y, ty) ∈ blockExterns ds) : (y, ty) ∈ blockExterns ds := h
 
 theorem unitOK_of {ds : List Decl} (hsc : symbolsScope ds = true) : UnitOK ds := by
   simp only [symbolsScope, Bool.and_eq_true, Bool.or_eq_true, Bool.not_eq_true'] at hsc
